@@ -1,6 +1,7 @@
 """C08 — reading with a reader schema yields what the specification's
 resolution rules prescribe."""
 import copy
+import decimal
 import io
 import json
 import random
@@ -148,6 +149,22 @@ TARGETED = [
      [{"type": "record", "name": "R", "fields": [{"name": "h", "type": ["null", {"type": "fixed", "name": "Rec", "namespace": "a", "size": 4}]}]},
       "a.Rec", {"type": "fixed", "name": "Rec", "namespace": "a.b", "size": 3}, "bytes"],
      b"abc"),
+    # a fixed that carries the decimal annotation is still a fixed: another size is a mismatch,
+    # whatever precision and scale say
+    ({"type": "record", "name": "Bill", "fields": [
+        {"name": "amount", "type": {"type": "fixed", "name": "Money", "size": 8, "logicalType": "decimal", "precision": 9, "scale": 2}},
+        {"name": "n", "type": "int"}]},
+     {"type": "record", "name": "Bill", "fields": [
+         {"name": "amount", "type": {"type": "fixed", "name": "Money", "size": 16, "logicalType": "decimal", "precision": 9, "scale": 2}},
+         {"name": "n", "type": "int"}]},
+     {"amount": decimal.Decimal("1234567.89"), "n": 1}),
+    ({"type": "record", "name": "Bill", "fields": [
+        {"name": "amounts", "type": {"type": "array", "items": ["null", {"type": "fixed", "name": "Money", "size": 8, "logicalType": "decimal", "precision": 9, "scale": 2}]}},
+        {"name": "again", "type": {"type": "map", "values": "Money"}}]},
+     {"type": "record", "name": "Bill", "fields": [
+         {"name": "amounts", "type": {"type": "array", "items": ["null", {"type": "fixed", "name": "Money", "size": 4, "logicalType": "decimal", "precision": 9, "scale": 2}]}},
+         {"name": "again", "type": {"type": "map", "values": "Money"}}]},
+     {"amounts": [None, decimal.Decimal("-0.01")], "again": {"k": decimal.Decimal("5.00")}}),
 ]
 
 
